@@ -1,6 +1,8 @@
 package ircomp
 
 import (
+	"math"
+
 	"github.com/arnodel/golua/code"
 	"github.com/arnodel/golua/ir"
 )
@@ -70,6 +72,10 @@ func (kc *ConstantCompiler) ProcessCode(c ir.Code) {
 		instr.ProcessInstr(ic)
 	}
 	end := kc.builder.Offset()
+	// Jump offsets and the program counter are 16 bits wide.
+	if end-start > math.MaxInt16 {
+		panic(newPanic("function too large"))
+	}
 	kc.addCompiled(code.Code{
 		Name:         c.Name,
 		StartOffset:  start,
